@@ -153,6 +153,11 @@ theorem modRecv_frame (s : Streams) (f : Recv → Recv)
   intro q
   cases q <;> simp [Streams.getQ, Streams.prio, Streams.recv, Streams.modRecv, h]
 
+/-- F32: `notify_push` when END_STREAM has closed the receive side (only `push_task` and the wake log change) -/
+theorem notifyPushIfRecvEnded_ev (s : Streams) (id : Nat) : EvB ρ s (s.notifyPushIfRecvEnded id) := by
+  unfold Streams.notifyPushIfRecvEnded
+  ev_auto
+
 theorem recvRecvHeaders_ev (s : Streams) (id : Nat) (h : HeadersIn) : EvB true s (s.recvRecvHeaders id h).1 := by
   unfold Streams.recvRecvHeaders
   split
@@ -408,5 +413,20 @@ theorem recvClearQueues_evT (s : Streams) (b : Bool) : EvT s (s.recvClearQueues 
   split
   · exact .trans (.trans (.ev (clearStreamWindowUpdateQueue_ev _ _)) (clearAllResetStreams_evT _ _)) (.ev (clearAllPendingAccept_ev _ _))
   · exact .trans (.ev (clearStreamWindowUpdateQueue_ev _ _)) (clearAllResetStreams_evT _ _)
+
+/-- `Recv::poll_pushed` (F32): the promised stream leaves its parent's `pending_push_promises`
+    (link flag cleared: `acceptFlag`), its request head is taken -/
+theorem recvPollPushed_ev (s : Streams) (id : Nat) (tag : String) : EvB ρ s (s.recvPollPushed id tag).1 := by
+  unfold Streams.recvPollPushed
+  split
+  · next child rest _ =>
+    dsimp only
+    have e1 : EvB ρ s ((s.modStream id fun st => { st with pendingPushPromises := rest }).modStream child
+        fun st => { st with isPendingAccept := false }) :=
+      .trans (by ev_auto) (.acceptFlag child false)
+    generalize ((s.modStream id fun st => { st with pendingPushPromises := rest }).modStream child
+        fun st => { st with isPendingAccept := false }) = s2 at e1 ⊢
+    ev_auto
+  · ev_auto
 
 end H2V.Lemmas.ConnCountsP
